@@ -10,6 +10,7 @@ import (
 
 	"golang.org/x/tools/go/ssa"
 
+	"gosymx/smt"
 	"gosymx/sym"
 )
 
@@ -67,7 +68,15 @@ func (m *Machine) wrap(l *sym.Lin, k intKind) Value {
 	if l.Lo != nil && l.Hi != nil && l.Lo.Cmp(k.min()) >= 0 && l.Hi.Cmp(k.max()) <= 0 {
 		return l
 	}
-	m.res.Funcs["<wrap-term>"]++
+	// intervals could not exclude a wrap: ask the solver under the path condition
+	if m.mergeGuard == nil {
+		c := m.ctx
+		out := c.Or(c.Lt(l, c.Const(sym.SInt, k.min())), c.Lt(c.Const(sym.SInt, k.max()), l))
+		if m.query(out) == smt.Unsat {
+			return l
+		}
+	}
+	m.res.Funcs["<wrap-term in "+m.where()+">"]++
 	// explicit wrap: ((l - min) mod 2^bits) + min
 	mod := sym.Pow2(k.bits)
 	shifted := m.ctx.Sub(l, m.ctx.Const(sym.SInt, k.min()))
@@ -386,13 +395,9 @@ func (m *Machine) bitAnd(x, y *sym.Lin, k intKind) Value {
 	mp1 := new(big.Int).Add(mask, big.NewInt(1))
 	if mask.Sign() > 0 && new(big.Int).And(mp1, mask).Sign() == 0 {
 		n := uint(mp1.BitLen() - 1)
-		if x.Lo != nil && x.Lo.Sign() >= 0 {
-			return m.intVal(m.ctx.ModC(x, sym.Pow2(n), true), k)
-		}
-		if k.signed {
-			// two's complement: x & mask == x mod 2^n (floor mod) for any x
-			return m.intVal(m.ctx.ModC(x, sym.Pow2(n), true), k)
-		}
+		// unsigned values are non-negative; for signed two's complement
+		// x & mask == x mod 2^n (floor mod) for any x
+		return m.intVal(m.ctx.ModC(x, sym.Pow2(n), true), k)
 	}
 	// single bit mask 2^n on a non-negative value: ((x >> n) mod 2) << n
 	if mask.Sign() > 0 && new(big.Int).And(mask, new(big.Int).Sub(mask, big.NewInt(1))).Sign() == 0 {
